@@ -77,6 +77,7 @@ class Picture:
         self.version = version
         self.nodes = {}
         self.fw = []  # (type, ver) with an image
+        self.images = {}  # (type, ver) -> image spec
         self.updating = set()
 
     def known_nodes(self):
@@ -180,6 +181,15 @@ def valid_frame(draw, pic, kinds=None):
         return internal(draw(st.integers(0, T.MAX_SUB[version][T.INTERNAL])))
     if kind == "cfgreq":
         words = [draw(st.integers(0, 3)), draw(st.integers(0, 3)), draw(st.integers(0, 70)), draw(st.integers(0, 65535)), draw(st.integers(0, 300))]
+        if pic.images and draw(st.integers(0, 9)) < 4:
+            # the node reports exactly a firmware the controller knows (it runs it already)
+            from vf.lockstep import image_bytes
+
+            fw = draw(st.sampled_from(sorted(pic.images)))
+            img = image_bytes(pic.images[fw])
+            total = O.allowed_paddings(len(img))[-1]
+            padded = img + bytes([255]) * (total - len(img))
+            words = [fw[0], fw[1], total // 16, O.crc16_modbus(padded), draw(st.integers(0, 300))]
         return (nid, 255, T.STREAM, ack, 0, _fw_payload(draw, O.words_hex(*words), 20))
     if kind == "blkreq":
         if pic.fw and draw(st.integers(0, 9)) < 8:
@@ -330,6 +340,7 @@ def fw_update(draw, pic, max_len=200):
         image = {"len": length, "seed": draw(st.integers(0, 999)), "fill": draw(st.sampled_from(["random", "random", "zero", "ff", "lastff"]))}
         if (ftype, fver) not in pic.fw:
             pic.fw.append((ftype, fver))
+        pic.images[(ftype, fver)] = image
     op = {"op": "fw", "nids": nids, "type": ftype, "ver": fver, "image": image}
     if image is not None and draw(st.integers(0, 3)) == 0:
         op["via_path"] = True  # through update_fw(fw_path=<Intel-HEX file>)
@@ -364,7 +375,7 @@ def histories(draw, versions=T.VERSIONS, max_ops=30, invalid=True, controller=Tr
             if wake is not None and draw(st.booleans()):
                 ops.append({"op": "line", "text": frame((nid, 255, T.INTERNAL, 0, wake, "5"))})
     weights = dict(valid=62, near=10 if invalid else 0, raw=6 if invalid else 0, set=12 if controller else 0,
-                   fw=4 if ota else 0, metric=2, cb_raise=2 if cb_raise else 0, clock=2, wild=0)
+                   fw=4 if ota else 0, metric=2, cb_raise=2 if cb_raise else 0, clock=2, wild=0, save=0)
     weights.update(op_weights or {})
     table = [k for k, w in weights.items() for _ in range(w)]
     for _ in range(n_ops):
@@ -386,6 +397,8 @@ def histories(draw, versions=T.VERSIONS, max_ops=30, invalid=True, controller=Tr
             ops.append(draw(controller_set(pic, wire_carriable, wild_vt)))
         elif roll == "fw":
             ops.append(draw(fw_update(pic)))
+        elif roll == "save":
+            ops.append({"op": "save"})
         elif roll == "metric":
             ops.append({"op": "metric", "value": draw(st.booleans())})
         elif roll == "cb_raise":
@@ -393,4 +406,7 @@ def histories(draw, versions=T.VERSIONS, max_ops=30, invalid=True, controller=Tr
         else:
             t = draw(st.tuples(st.integers(1971, 2037), st.integers(1, 12), st.integers(1, 28), st.integers(0, 23), st.integers(0, 59), st.integers(0, 59)))
             ops.append({"op": "clock", "t": list(t), "dst": draw(st.sampled_from([0, 1, -1]))})
-    return {"version": version, "flavour": draw(st.sampled_from(list(flavours))), "ops": ops}
+    case = {"version": version, "flavour": draw(st.sampled_from(list(flavours))), "ops": ops}
+    if weights.get("save"):
+        case["persist"] = draw(st.sampled_from(["pickle", "json"]))
+    return case
